@@ -43,6 +43,10 @@ def confirm(mod, failure):
     if obl == 'no_exception':
         return 'unconfirmed', "real code did not raise (%s)" % failure.get('note')
     obls = dict(mod.obligations(rec))
+    second = getattr(rec, 'second', None)
+    if second is not None:
+        obls.update({n + '@second_call': f for n, f in mod.obligations(second)})
+        q = dict(q, second_call=True)
     if obl not in obls:
         return 'unconfirmed', "obligation %s not produced on the concrete path" % obl
     if _truth(obls[obl]):
